@@ -42,10 +42,15 @@ def _skip_raw_string(s, i):
 _IDENT = re.compile(r'[A-Za-z_][A-Za-z0-9_]*')
 
 
+COMMENT_MASK = []
+
+
 def code_mask(s):
     """Return a list `m` with m[i] True iff s[i] is code (not inside string/char/comment)."""
     n = len(s)
     m = [True] * n
+    COMMENT_MASK.clear()
+    COMMENT_MASK.extend([False] * n)
     i = 0
     while i < n:
         c = s[i]
@@ -55,6 +60,7 @@ def code_mask(s):
                 j = n
             for k in range(i, j):
                 m[k] = False
+                COMMENT_MASK[k] = True
             i = j
         elif c == '/' and i + 1 < n and s[i + 1] == '*':
             depth = 1
@@ -70,6 +76,7 @@ def code_mask(s):
                     j += 1
             for k in range(i, j):
                 m[k] = False
+                COMMENT_MASK[k] = True
             i = j
         elif c == '"':
             j = _skip_string(s, i)
@@ -172,14 +179,16 @@ class Item:
     fns: List[Fn] = field(default_factory=list)
 
 
-def _skip_ws(s, i, mask):
+def _skip_ws(s, i, mask, comment=None):
+    """skip whitespace and comments (never string / char literals, which are non-code too)"""
     n = len(s)
-    while i < n and (s[i].isspace() or not mask[i]):
-        # comments are non-code: skip them together with whitespace, but never skip string chars
-        if not mask[i] and s[i] in '"\'':
-            break
+    comment = comment if comment is not None else CURRENT_COMMENT[0]
+    while i < n and (s[i].isspace() or (comment is not None and i < len(comment) and comment[i])):
         i += 1
     return i
+
+
+CURRENT_COMMENT = [None]
 
 
 def _find_code(s, mask, chars, i, end):
@@ -190,10 +199,10 @@ def _find_code(s, mask, chars, i, end):
     return -1
 
 
-def _skip_attrs(s, mask, i, end, brackets):
+def _skip_attrs(s, mask, i, end, brackets, comment=None):
     """Skip `#[...]` attributes starting at i; return offset after them."""
     while True:
-        i = _skip_ws(s, i, mask)
+        i = _skip_ws(s, i, mask, comment)
         if i < end and s[i] == '#' and mask[i]:
             j = i + 1
             if j < end and s[j] == '!':
@@ -239,6 +248,8 @@ class Scan:
     def __init__(self, text):
         self.s = text
         self.mask = code_mask(text)
+        self.comment = list(COMMENT_MASK)
+        CURRENT_COMMENT[0] = self.comment
         self.braces = match_braces(text, self.mask, '{', '}')
         self.parens = match_braces(text, self.mask, '(', ')')
         self.brackets = match_braces(text, self.mask, '[', ']')
@@ -249,11 +260,11 @@ class Scan:
         out = []
         i = start
         while True:
-            i = _skip_ws(s, i, mask)
+            i = _skip_ws(s, i, mask, self.comment)
             if i >= end:
                 break
             item_start = i
-            hs = _skip_attrs(s, mask, i, end, self.brackets)
+            hs = _skip_attrs(s, mask, i, end, self.brackets, self.comment)
             attrs = s[item_start:hs]
             # find the end of head: first `{` or `;` at paren depth 0
             j = hs
@@ -295,7 +306,7 @@ class Scan:
         quals = norm(s[it.head_start:sig_start])
         k = it.head_start + m.end()
         # optional generics
-        k = _skip_ws(s, k, mask)
+        k = _skip_ws(s, k, mask, self.comment)
         if s[k] == '<':
             depth = 0
             while True:
@@ -308,16 +319,16 @@ class Scan:
                             k += 1
                             break
                 k += 1
-            k = _skip_ws(s, k, mask)
+            k = _skip_ws(s, k, mask, self.comment)
         if s[k] != '(':
             raise ScanError("fn params not found: " + it.head)
         po = k
         pc = self.parens[po]
-        k = _skip_ws(s, pc + 1, mask)
+        k = _skip_ws(s, pc + 1, mask, self.comment)
         ret_start = ret_end = None
         where_start = None
         if s.startswith('->', k):
-            ret_start = _skip_ws(s, k + 2, mask)
+            ret_start = _skip_ws(s, k + 2, mask, self.comment)
             w = _angle_aware_find(s, mask, ret_start, it.head_end, ('where',), self.parens, self.brackets)
             if w >= 0:
                 where_start = w
